@@ -441,8 +441,11 @@ impl Gs2State {
     }
 
     /// GameSpy 2 has no multi-datagram transport: keep the reply within one MTU.
-    pub fn fit(&mut self) {
-        while self.encode([0, 0, 0, 1]).len() > 1400 {
+    pub fn fit(&mut self) { self.fit_to(1400) }
+
+    /// Keep the reply within `limit` bytes (a datagram above the MTU travels in IP fragments).
+    pub fn fit_to(&mut self, limit: usize) {
+        while self.encode([0, 0, 0, 1]).len() > limit {
             if !self.players.is_empty() {
                 self.players.pop();
             } else if !self.extras.is_empty() {
